@@ -29,7 +29,7 @@ var checks = map[string][]HarnessSpec{
 	},
 	"C06": {
 		{Name: "verifC06History", Pkg: ".", Labels: []string{"setup", "retry-ok", "retry-abort", "done"}},
-		{Name: "verifC06Concurrent", Pkg: ".", Labels: []string{"concurrent-retry"}},
+		{Name: "verifC06Concurrent", NoisyNative: true, Pkg: ".", Labels: []string{"concurrent-retry"}},
 		{Name: "verifC06SecondHRR", Pkg: ".", Labels: []string{"second-hrr"}},
 		{Name: "verifC04RetryRules", Pkg: ".", Labels: []string{"retry-ran"}}, // every ill-formed retried hello (also registered under C04)
 	},
@@ -41,13 +41,13 @@ var checks = map[string][]HarnessSpec{
 		{Name: "verifC07EndToEnd", Pkg: ".", Labels: []string{"end-to-end"}},
 	},
 	"C08": {
-		{Name: "verifC08Raw", Pkg: ".", Labels: []string{"newconn-ok", "newconn-error", "reads-done"}},
-		{Name: "verifC08Ext", Pkg: ".", Labels: []string{"newconn-ok", "newconn-error"}},
+		{Name: "verifC08Raw", NoisyNative: true, Pkg: ".", Labels: []string{"newconn-ok", "newconn-error", "reads-done"}},
+		{Name: "verifC08Ext", NoisyNative: true, Pkg: ".", Labels: []string{"newconn-ok", "newconn-error"}},
 		{Name: "verifC08ReadArmed", Pkg: ".", Labels: []string{"armed"}},
 		{Name: "verifC08WriteArmed", Pkg: ".", Labels: []string{"writes-done"}},
 		{Name: "verifC08AroundECH", Pkg: ".", Labels: []string{"newconn-ok", "newconn-error"}},
-		{Name: "verifC10Stall", Pkg: ".", Labels: []string{"stall-returned"}},
-		{Name: "verifC08InnerRaw", Pkg: ".", Labels: []string{"inner-refused", "inner-ok"}},
+		{Name: "verifC10Stall", NoisyNative: true, Pkg: ".", Labels: []string{"stall-returned"}},
+		{Name: "verifC08InnerRaw", NoisyNative: true, Pkg: ".", Labels: []string{"inner-refused", "inner-ok"}},
 		{Name: "verifC08RetryExt", Pkg: ".", Labels: []string{"retry-refused"}},
 		{Name: "verifC08ServerHello", Pkg: ".", Labels: []string{"sh-refused", "sh-passed"}},
 		{Name: "verifC04RetryRules", Pkg: ".", Labels: []string{"retry-ran"}}, // structured ill-formed retried hellos: no panic (also registered under C04 and C06)
@@ -57,11 +57,11 @@ var checks = map[string][]HarnessSpec{
 		{Name: "verifC09Retry", Pkg: ".", Labels: []string{"retried"}},
 	},
 	"C10": {
-		{Name: "verifC10AfterReturn", Pkg: ".", Labels: []string{"after-return"}},
-		{Name: "verifC10WhileBlocked", Pkg: ".", Labels: []string{"cancelled", "ok"}},
-		{Name: "verifC10Timeout", Pkg: ".", Labels: []string{"timeout-after-return", "timeout-stalled"}},
-		{Name: "verifC10Accepted", Pkg: ".", Labels: []string{"accepted-after-cancel"}},
-		{Name: "verifC10CancelledAtEntry", Pkg: ".", Labels: []string{"entry-ok"}},
+		{Name: "verifC10AfterReturn", NoisyNative: true, Pkg: ".", Labels: []string{"after-return"}},
+		{Name: "verifC10WhileBlocked", NoisyNative: true, Pkg: ".", Labels: []string{"cancelled", "ok"}},
+		{Name: "verifC10Timeout", NoisyNative: true, Pkg: ".", Labels: []string{"timeout-after-return", "timeout-stalled"}},
+		{Name: "verifC10Accepted", NoisyNative: true, Pkg: ".", Labels: []string{"accepted-after-cancel"}},
+		{Name: "verifC10CancelledAtEntry", NoisyNative: true, Pkg: ".", Labels: []string{"entry-ok"}},
 	},
 	"C11": {
 		{Name: "verifC11Encode", Pkg: ".", Labels: []string{"roundtrip"}},
@@ -80,7 +80,7 @@ var checks = map[string][]HarnessSpec{
 		{Name: "verifC12Resolve", Pkg: ".", Labels: []string{"resolved-or-error"}},
 		{Name: "verifC12Cycles", Pkg: "./dns", Labels: []string{"rejected"}, Quick: TierOpts{LoopLimit: 300}, Thorough: TierOpts{LoopLimit: 300}},
 		{Name: "verifC12Params", Pkg: "./dns", Labels: []string{"decoded", "rejected"}, Quick: TierOpts{LoopLimit: 300}, Thorough: TierOpts{LoopLimit: 300}},
-		{Name: "verifC12Memory", Pkg: "./dns", Labels: []string{"rejected"}, Quick: TierOpts{LoopLimit: 300}, Thorough: TierOpts{LoopLimit: 300}},
+		{Name: "verifC12Memory", NoisyNative: true, Pkg: "./dns", Labels: []string{"rejected"}, Quick: TierOpts{LoopLimit: 300}, Thorough: TierOpts{LoopLimit: 300}},
 		{Name: "verifC12FarPointers", Pkg: "./dns", Labels: []string{"rejected"}, Quick: TierOpts{LoopLimit: 600}, Thorough: TierOpts{LoopLimit: 600}},
 	},
 	"C13": {
@@ -113,21 +113,21 @@ var checks = map[string][]HarnessSpec{
 		{Name: "verifC16Repeat", Pkg: ".", Labels: []string{"repeat"}},
 		{Name: "verifC16Keys", Pkg: ".", Labels: []string{"keys"}},
 		{Name: "verifC16Constructors", Pkg: ".", Labels: []string{"constructors"}},
-		{Name: "verifC16ZeroTTLConcurrent", Pkg: ".", Labels: []string{"zero-ttl"}},
-		{Name: "verifC16Race", Pkg: ".", Labels: []string{"race-checked"}, Race: true},
+		{Name: "verifC16ZeroTTLConcurrent", NoisyNative: true, Pkg: ".", Labels: []string{"zero-ttl"}},
+		{Name: "verifC16Race", NoisyNative: true, Pkg: ".", Labels: []string{"race-checked"}, Race: true},
 	},
 	"C17": {
-		{Name: "verifC17Dial", Pkg: ".", Labels: []string{"dialed", "connected", "failed"}},
-		{Name: "verifC17ResolverPath", Pkg: ".", Labels: []string{"resolver-path"}},
-		{Name: "verifC17AddressForms", Pkg: ".", Labels: []string{"address-forms"}},
+		{Name: "verifC17Dial", NoisyNative: true, Pkg: ".", Labels: []string{"dialed", "connected", "failed"}},
+		{Name: "verifC17ResolverPath", NoisyNative: true, Pkg: ".", Labels: []string{"resolver-path"}},
+		{Name: "verifC17AddressForms", NoisyNative: true, Pkg: ".", Labels: []string{"address-forms"}},
 	},
 	"C18": {
-		{Name: "verifC18Dial", Pkg: ".", Labels: []string{"returned", "connected", "all-failed", "quiesced"}},
-		{Name: "verifC18Defaults", Pkg: ".", Labels: []string{"defaults"}},
+		{Name: "verifC18Dial", NoisyNative: true, Pkg: ".", Labels: []string{"returned", "connected", "all-failed", "quiesced"}},
+		{Name: "verifC18Defaults", NoisyNative: true, Pkg: ".", Labels: []string{"defaults"}},
 	},
 	"C19": {
-		{Name: "verifC19RoundTrip", Pkg: ".", Labels: []string{"roundtrip", "h3", "https", "plaintext-refused"}},
-		{Name: "verifC19PoolKeys", Pkg: ".", Labels: []string{"keys"}},
+		{Name: "verifC19RoundTrip", NoisyNative: true, Pkg: ".", Labels: []string{"roundtrip", "h3", "https", "plaintext-refused"}},
+		{Name: "verifC19PoolKeys", NoisyNative: true, Pkg: ".", Labels: []string{"keys"}},
 	},
 	"C20": {
 		{Name: "verifC20Publish", Mod: "publish", Pkg: ".", Labels: []string{"published", "republished"}},
